@@ -53,37 +53,53 @@ Definition quiet_obs (o : obs) : bool :=
 Definition only_close (o : obs) : bool :=
   beq_frames (frames o) [OClose] && Nat.eqb (joins o) 0 && negb (registered o).
 
-Inductive expect := XLogin | XEnc | XAck | XNone.
+Inductive expect := XLogin | XWait | XEnc | XAck | XNone.
+(* XWait: an in-order login start was answered with login plugin messages only; the login continues
+   when the client has answered them. A further login start is out of order. *)
 
 (* what must have happened before an admission: st_req = an in-order, acceptable login start was
    answered by an encryption request and nothing but plugin responses came in between *)
-Record track := mkT { x : expect; open : bool; chain_ready : bool; total_joins : nat }.
+Record track := mkT { x : expect; open : bool; chain_ready : bool; total_joins : nat; pending_good : bool }.
+(* pending_good: the login start that is waiting in XWait was an acceptable one *)
+
+Definition is_plugin_msg (o : out) : bool := match o with OPluginMsg _ => true | _ => false end.
 
 Definition step_ok (c : cfg) (t : track) (o : op) (ob : obs) : bool * track :=
   if negb (open t) then (quiet_obs ob, t) else
   let in_ord :=
     match o with
-    | PluginResp => has_plugin c
+    | PluginResp _ => has_plugin c
     | Unknown => false
     | LoginStart _ _ => match x t with XLogin => true | _ => false end
     | EncResp _ _ _ => match x t with XEnc => true | _ => false end
     | LoginAck => match x t with XAck => true | _ => false end
     end in
-  if negb in_ord then (only_close ob, mkT XNone false false (total_joins t)) else
+  if negb in_ord then (only_close ob, mkT XNone false false (total_joins t) false) else
   let closed_now := has OClose (frames ob) in
   let tj := (total_joins t + joins ob)%nat in
+  let got_req := has OEncRequest (frames ob) in
+  (* admission that does not go through an encryption response: only outside effective online mode
+     (or with a profile-providing transport), for an acceptable login start, never with the session identity *)
+  let early_ok (good : bool) :=
+    if effective_online c && negb (provider c) then negb (admits ob)
+    else implb (admits ob) (good && negb (has (OSuccess USession) (frames ob))) in
+  let after_success := if has_ack c then XAck else XNone in
   match o with
-  | PluginResp => (negb (admits ob), mkT (x t) (negb closed_now) (chain_ready t) tj)
+  | PluginResp _ =>
+      match x t with
+      | XWait =>
+          let nx := if closed_now then XNone else if got_req then XEnc
+                    else if saw_success ob then after_success else XWait in
+          (early_ok (pending_good t),
+           mkT nx (negb closed_now) (got_req && pending_good t && negb closed_now) tj (pending_good t))
+      | _ => (negb (admits ob) && negb got_req, mkT (x t) (negb closed_now) (chain_ready t) tj false)
+      end
   | LoginStart _ _ =>
-      let got_req := has OEncRequest (frames ob) in
-      let ok :=
-        if effective_online c && negb (provider c)
-        then negb (admits ob)                                   (* never admitted at login start *)
-        else (* offline / bypass: admission only for an acceptable login start, announcing the offline id *)
-             implb (admits ob) (good_login c o && negb (has (OSuccess USession) (frames ob))) in
+      let waits := existsb is_plugin_msg (frames ob) in
       let nx := if closed_now then XNone else if got_req then XEnc
-                else if saw_success ob then (if has_ack c then XAck else XNone) else XNone in
-      (ok, mkT nx (negb closed_now) (got_req && good_login c o && negb closed_now) tj)
+                else if saw_success ob then after_success else if waits then XWait else XNone in
+      (early_ok (good_login c o),
+       mkT nx (negb closed_now) (got_req && good_login c o && negb closed_now) tj (good_login c o))
   | EncResp _ _ _ =>
       let ok :=
         implb (admits ob)
@@ -91,9 +107,9 @@ Definition step_ok (c : cfg) (t : track) (o : op) (ob : obs) : bool * track :=
            && saw_success ob && enc_on ob && has (OSuccess USession) (frames ob)
            && Nat.eqb (joins ob) 1 && Nat.eqb tj 1) in
       let nx := if closed_now then XNone
-                else if saw_success ob then (if has_ack c then XAck else XNone) else XNone in
-      (ok, mkT nx (negb closed_now) false tj)
-  | LoginAck => (negb (saw_success ob), mkT XNone (negb closed_now) false tj)
+                else if saw_success ob then after_success else XNone in
+      (ok, mkT nx (negb closed_now) false tj false)
+  | LoginAck => (negb (saw_success ob), mkT XNone (negb closed_now) false tj false)
   | Unknown => (false, t)
   end.
 
@@ -116,7 +132,7 @@ Definition join_args_ok (c : case) : bool :=
   end.
 
 Definition holds_C08 (c : case) : bool :=
-  holds_from (conf c) (mkT XLogin true false 0) (ops c) (observed c) && join_args_ok c.
+  holds_from (conf c) (mkT XLogin true false 0 false) (ops c) (observed c) && join_args_ok c.
 
 Definition judge (c : case) : verdict :=
   if holds_C08 c
